@@ -636,6 +636,14 @@ theorem runOp_sim {P : Nat} {h1 h2 : HState} (hh : HS P h1 h2) (op : SOp) :
       rw [hh.sim.w.cur]
       obtain ⟨a, b⟩ := hh.sim.map (loc_emit (.tag (match h1.c.cur with | some cmd => cmd.tag | none => 0)))
       exact ⟨⟨a, hh.stopOnFail, hh.result, hh.done⟩, b⟩
+    case iIsCmd s =>
+      rw [hh.sim.w.cur]
+      obtain ⟨a, b⟩ := hh.sim.map (loc_emit (.test (match h1.c.cur with
+        | some cmd => (Match.matchCommand cmd.pattern (s.takeWhile (· ≠ 0)) (s.takeWhile (· ≠ 0)).length none 0).1 | none => false)))
+      exact ⟨⟨a, hh.stopOnFail, hh.result, hh.done⟩, b⟩
+    case iMatch pat s =>
+      obtain ⟨a, b⟩ := hh.sim.map (loc_emit (.test (Match.matchCommand pat s s.length none 0).1))
+      exact ⟨⟨a, hh.stopOnFail, hh.result, hh.done⟩, b⟩
     case iNums n d =>
       rw [hh.sim.w.cur]
       split
